@@ -54,6 +54,9 @@ class KOps (α : Type) where
   cos32 : α → α
   /-- `f32::is_finite` / `f64::is_finite` (always true over ℝ) -/
   isFinite : α → Bool
+  /-- clamp of an integer result to the `u64` range, as `u64::saturating_add` does (`min n (2^64 - 1)` in
+      the twin; the identity over ℝ, where integers are ideal like `toNatSat`) -/
+  satU64 : Nat → Nat := fun n => n
 
 namespace K
 
